@@ -238,6 +238,12 @@ def run(ctx, tier):
     ctx.rule('C03.R1', 'C03: exit composition - pending, exit script, G92 E, then Z before XY iff rising / after iff falling / absent iff equal', floor=6)
     ctx.rule('C03.R4', 'C03: every word of the exit commands is the logical value of the tracked native position in the current frame', floor=6)
     rules_c03.exit_rules(ctx, make_interp(ctx.model), {('fld', _S, 'excluding'): [True]}, 'exitExcludedRegion')
+    # the merged deferred command is built from the parameter map kept for its code: that map belongs to one code and one
+    # episode (C06.R6 mode semantics as premise - a map shared between codes puts foreign words into the command)
+    from . import rules_c06
+    ctx.rule('C06.R6', 'C06: mode semantics - first keeps the first instance, last / merge move the entry to the end, merge keeps a '
+                       'parameter map of its own per code (latest value of every parameter), exclude stores nothing', floor=4)
+    rules_c06.modes_rule(ctx, make_interp(ctx.model))
     ctx.rule('C07.R5', 'the parameter text spliced into a generated G10 / G11 is the parameter text of one command of the file: '
                        'RetractionState.originalCommand is assigned in the constructor only, never extended or rewritten (two '
                        'commands\' parameters glued together repeat letters)', floor=1)
